@@ -99,14 +99,64 @@ def shadow_bytes(on: bool = True) -> None:
         del S.bytes  # type: ignore[attr-defined]
 
 
+_STATE: dict[int, tuple] = {}
+_SCANNED: set[str] = set()
+STATE_MUTATIONS: dict[str, int] = {}
+
+
+def _containers(name: str, m: Any) -> Any:
+    """module-level and class-level mutable containers and mutable default arguments of a repo module"""
+    import types
+
+    holders: list[tuple[str, Any]] = [(name, m)]
+    for k, v in list(vars(m).items()):
+        if isinstance(v, type) and getattr(v, '__module__', None) == name:
+            holders.append((f'{name}.{k}', v))
+    for hn, h in holders:
+        for k, v in list(vars(h).items()):
+            if k.startswith('__'):
+                continue
+            if isinstance(v, (dict, list, set)):
+                yield f'{hn}.{k}', v
+            f = v.__func__ if isinstance(v, (classmethod, staticmethod)) else v
+            if isinstance(f, types.FunctionType) and getattr(f, '__module__', None) == name:
+                for i, d in enumerate((f.__defaults__ or ()) + tuple((f.__kwdefaults__ or {}).values())):
+                    if isinstance(d, (dict, list, set)):
+                        yield f'{hn}.{k}(default {i})', d
+
+
 def reset_caches() -> None:
+    """called before every explored path: every path starts from the process state the modules had when they were
+    first seen -- functools caches cleared, module-/class-level containers and mutable default arguments of the
+    repo's modules restored.  State that leaks between calls is therefore only visible to a harness that makes the
+    earlier calls itself (the history / warm-up levels), and then it replays; symbolic values of an earlier path can
+    never reach a later one."""
     for name, m in list(sys.modules.items()):
         if not name.startswith('proof_generation'):
             continue
         for v in list(vars(m).values()):
-            cc = getattr(v, 'cache_clear', None)
-            if cc is not None and callable(cc):
-                try:
-                    cc()
-                except Exception:
-                    pass
+            for w in [v] + ([x for x in vars(v).values()] if isinstance(v, type) and getattr(v, '__module__', None) == name else []):
+                cc = getattr(w, 'cache_clear', None)
+                if cc is not None and callable(cc):
+                    try:
+                        cc()
+                    except Exception:
+                        pass
+        if name not in _SCANNED:
+            _SCANNED.add(name)
+            for label, obj in _containers(name, m):
+                if id(obj) not in _STATE:
+                    _STATE[id(obj)] = (label, obj, obj.copy())
+    for label, obj, saved in _STATE.values():
+        if len(obj) != len(saved):
+            STATE_MUTATIONS[label] = STATE_MUTATIONS.get(label, 0) + 1
+        elif not obj:
+            continue
+        if isinstance(obj, dict):
+            obj.clear()
+            obj.update(saved)
+        elif isinstance(obj, list):
+            obj[:] = saved
+        else:
+            obj.clear()
+            obj.update(saved)
